@@ -24,6 +24,10 @@ def gpptThresholdDefault : Rat := ((1) : Rat) / 10000000000
 def gpptAcceptOp : Cmp := .le
 def gpptRhsOnePlusThreshold : Bool := true
 def gpptBreakOp : Cmp := .gt
+/-- input guards `assert np.abs(rho-rho.T.conj()).max() <(=) 1e-10` of is_ppt / check_reduction_witness / get_negativity: present and complete -/
+def isPptHermGuard : Bool := true
+def reductionHermGuard : Bool := true
+def negativityHermGuard : Bool := true
 /-- `check_swap_witness(rho, eps=…)`: `ret = tmp0 <op> eps` -/
 def swapEpsDefault : Rat := ((-1) : Rat) / 10000000
 def swapOp : Cmp := .gt
